@@ -137,6 +137,17 @@ func qciRecord(out io.Writer, args []string) error {
 		}
 		cs = append(cs, -0.5, 1.5, 0.95, 0.99, 0.999, rng.Float64(), rng.Float64(),
 			math.Nextafter(1, 0), 1-math.Ldexp(1, -52), 1-1e-15, 1-1e-13, 1-1e-10, math.Nextafter(0, 1), 1e-300) // legal levels next to both ends
+		if *bigN && q > 0 && q < 1 {
+			// levels whose central normal band ends within 1e-9..1e-8 of a half-integer, on either side: just above, the band
+			// must still be rounded OUTWARD to the next bucket (else its content falls short of the level by ~1e-10)
+			mu, sigma := float64(d.n)*q, math.Sqrt(float64(d.n)*q*(1-q))
+			for _, j := range []float64{0, 1, 2, 4, 7, 11} {
+				h := math.Floor(mu) + j + 0.5
+				if c0 := math.Erf((h - mu) / sigma / math.Sqrt2); c0 > 1e-6 && c0 < 1-1e-6 {
+					cs = append(cs, c0+1e-10, c0-1e-10, c0+1e-9, c0-1e-9)
+				}
+			}
+		}
 		call := func(c float64) stats.QuantileCIResult {
 			r := stats.QuantileCI(d.n, q, c)
 			e := base
